@@ -14,12 +14,14 @@
      - the mainline ordering is a permutation sorted by (position, steps, timestamp, ID);
      - the partial state is a map: the result has at most one event per key.
      - split_is_spec: the unconflicted events are exactly the specification's.
+     - full_auth_chain_is_spec, auth_difference_is_spec: the full auth chains and the v2 auth
+       difference are exactly the specification's.
    Not proved (covered by the correspondence and the oracles only): that the model's
-   auth-difference walk / conflicted-subgraph enumeration / control-set closure equal their
-   V2Spec definitions, and the v1 resolver's refinement r7. *)
+   conflicted-subgraph enumeration (v2.1) / control-set closure equal their V2Spec definitions,
+   and the v1 resolver's refinement r7. *)
 From Coq Require Import Permutation Sorted.
 From Verif Require Import Lib.Bytes StateRes.Event StateRes.Kahn StateRes.V2 StateRes.V1 StateRes.Entry
-     StateRes.SortProofs StateRes.KahnProofs StateRes.OrderProofs StateRes.ResultProofs StateRes.CmpProofs StateRes.KahnOrderProofs StateRes.V2Spec StateRes.OrderSetProofs StateRes.SplitProofs StateRes.ChainProofs StateRes.V1Proofs.
+     StateRes.SortProofs StateRes.KahnProofs StateRes.OrderProofs StateRes.ResultProofs StateRes.CmpProofs StateRes.KahnOrderProofs StateRes.V2Spec StateRes.OrderSetProofs StateRes.SplitProofs StateRes.ChainProofs StateRes.ChainCompleteProofs StateRes.AuthDiffProofs StateRes.V1Proofs.
 
 Section C10.
   Variable allowed : event -> list event -> bool.
@@ -128,14 +130,24 @@ Theorem split_is_spec (shG : groups -> groups) (sets : list (list event)) (e : e
 Proof. intros. apply split_unconflicted_is_spec; assumption. Qed.
 
 
-(* the walk that collects a state set's full auth chain only collects events the
-   specification's reachability relation reaches. PARTIAL: the converse (the walk misses
-   nothing; missing lemma: chain_walk_complete - the fuel S (refs set + refs authmap + |authmap|)
-   suffices and the visited set is closed under auth steps) is not proved; the saturation
-   oracle C10.prop.authdiff checks both directions on every generated case. *)
-Theorem auth_difference_is_spec_partial (authmap set : list event) (x : event) :
-  In x (full_auth_chain authmap set) -> in_full_chain authmap set x.
-Proof. apply full_auth_chain_sound. Qed.
+(* the walk that collects a state set's full auth chain collects exactly the events the
+   specification's reachability relation reaches: it is sound (ChainProofs.v) and, with the fuel
+   S (refs set + refs authmap + |authmap|) the code's bound corresponds to, complete
+   (ChainCompleteProofs.chain_walk_complete: every step consumes a work item or moves an event of
+   authmap into the visited set, and the visited set ends closed under auth steps) *)
+Theorem full_auth_chain_is_spec (authmap set : list event) (x : event) :
+  In x (full_auth_chain authmap set) <-> in_full_chain authmap set x.
+Proof. apply full_auth_chain_spec. Qed.
+
+(* the auth difference of v2 is the specification's: the union of the full auth chains of the
+   state sets minus their intersection (for every iteration order shE of the result).  The v2.1
+   variant adds the conflicted subgraph to this set; that the subgraph enumeration equals
+   spec_conflicted_subgraph is not proved (oracle C10.prop.authdiff checks it on every case). *)
+Theorem auth_difference_is_spec (shE : list event -> list event) (authmap conflicted : list event)
+        (sets : list (list event)) (x : event) :
+  (forall l, Permutation (shE l) l) ->
+  (In x (auth_difference_new shE false authmap conflicted sets) <-> spec_auth_difference authmap sets x).
+Proof. intro P. apply auth_difference_new_is_spec. exact P. Qed.
 
 
 (* v1: ResolveStateConflicts picks conflicted events - every event it returns is one of the
@@ -174,6 +186,7 @@ Print Assumptions power_order_is_topological.
 Print Assumptions power_order_is_library_order.
 Print Assumptions mainline_order_sorted.
 Print Assumptions split_is_spec.
-Print Assumptions auth_difference_is_spec_partial.
+Print Assumptions full_auth_chain_is_spec.
+Print Assumptions auth_difference_is_spec.
 Print Assumptions v1_resolves_per_spec_partial.
 Print Assumptions result_is_a_state_map.
